@@ -14,7 +14,7 @@ EPS = 2.0 ** -53
 SOLVERS = ["cg", "bicg1", "bicg2", "bicgstab", "qmr"]
 COQ_SOLVER = {"cg": "CG", "bicg1": "(BiCG 1)", "bicg2": "(BiCG 2)", "bicgstab": "BiCGSTAB", "qmr": "QMR"}
 TIE_MAX_N = 12          # systems up to this order are run through the engine's correspondence check
-TIE_TOL = 1e-9
+TIE_TOL = 1e-6
 
 def kind_of(solver):
     if solver.startswith("bicg") and solver != "bicgstab":
@@ -40,9 +40,12 @@ class Sys:
         return Sys(j["rows"], j["cols"], [(int(t[0]), int(t[1]), float(t[2])) for t in j["trip"]],
                    [float(v) for v in j["b"]], [float(v) for v in j["x0"]], j.get("info", {}))
 
-def exec_line(solver, s, maxit, tol):
+def exec_line(solver, s, maxit, tol, brief=False):
+    k = kind_of(solver)
+    if brief:
+        k = k.replace("it.bicg ", "it.bicg.t ") if k.startswith("it.bicg ") else k + ".t"
     return "%s %d %d [%s] [%s] %s %s %s %d %s" % (
-        kind_of(solver), s.rows, s.cols,
+        k, s.rows, s.cols,
         ",".join(str(i) for (i, _, _) in s.trip), ",".join(str(j) for (_, j, _) in s.trip),
         tok_vec('f64', [v for (_, _, v) in s.trip]), tok_vec('f64', s.b), tok_vec('f64', s.x0),
         maxit, tok_scalar('f64', tol))
@@ -58,31 +61,65 @@ def term_tie(solver, s, maxit, tol):
 def term_trace(solver, s, maxit, tol):
     return "@it_flat_tr SAF flat_f %d %s" % (maxit, coq_run(solver, s, maxit, tol))
 
-def mk_case(solver, s, maxit, tol, family, nontrivial=True, tie=None, want_trace=False, extra=None):
-    """tie=None: tie iff the system is small.  want_trace: the oracle needs the model's ghost trace."""
+def mk_cases(solver, s, maxit, tol, family, nontrivial=True, tie=None, want_trace=False, extra=None):
+    """One run of one solver = an ORACLE case (full answer: Result, error value, x, budget; no model term) and, for
+    small systems, a TIE case (kind .t: the stream of the correspondence check, with the model term).
+    want_trace: the oracle needs the model's ghost trace (C08 drift allowance)."""
     if tie is None:
         tie = max(s.rows, s.cols) <= TIE_MAX_N
-    line = exec_line(solver, s, maxit, tol)
-    meta = {"solver": solver, "sys": s.to_json(), "maxit": maxit, "tol": tol, "want_trace": bool(want_trace)}
+    meta = {"solver": solver, "sys": s.to_json(), "maxit": maxit, "tol": tol, "want_trace": bool(want_trace), "role": "oracle"}
     if extra: meta.update(extra)
-    c = Case('f64', line, term_tie(solver, s, maxit, tol) if tie else None, meta=meta,
-             family=family, nontrivial=nontrivial, tol=TIE_TOL)
+    oc = Case('f64', exec_line(solver, s, maxit, tol), None, meta=meta, family=family, nontrivial=nontrivial, tol=TIE_TOL)
+    out = [oc]
     if want_trace:
-        PENDING.append(c)
-    return c
+        PENDING.append(oc)
+    if tie:
+        tmeta = {"solver": solver, "sys": meta["sys"], "maxit": maxit, "tol": tol, "role": "tie", "oracle_line": oc.line}
+        out.append(Case('f64', exec_line(solver, s, maxit, tol, brief=True), term_tie(solver, s, maxit, tol), meta=tmeta,
+                        family=family + "/tie", nontrivial=False, tol=TIE_TOL))
+    return out
 
 def case_from_json(j):
+    """corpus / replay files hold one oracle case (or one tie case, for a correspondence replay)"""
     m = j["meta"]
     s = Sys.from_json(m["sys"])
-    extra = {k: v for k, v in m.items() if k not in ("solver", "sys", "maxit", "tol", "want_trace")}
-    return mk_case(m["solver"], s, int(m["maxit"]), float(m["tol"]), "corpus", True,
-                   want_trace=m.get("want_trace", False), extra=extra)
+    extra = {k: v for k, v in m.items() if k not in ("solver", "sys", "maxit", "tol", "want_trace", "role", "oracle_line")}
+    cs = mk_cases(m["solver"], s, int(m["maxit"]), float(m["tol"]), "corpus", True,
+                  want_trace=m.get("want_trace", False), extra=extra)
+    if m.get("role") == "tie" and len(cs) > 1:
+        return cs[1]
+    return cs[0]
+
+def finalize(cases, tag):
+    """Evaluate the float model (full answer + ghost trace) on every tie case once: the answers feed the
+    oracles (TRACE), and a run with a convergence decision within 1e-9*tol of the tolerance is taken out of
+    the correspondence check (counted): its outcome is not a stable function of rounding."""
+    ties = [c for c in cases if c.meta.get("role") == "tie"]
+    if not ties:
+        return cases
+    terms = []
+    for k, c in enumerate(ties):
+        m = c.meta
+        terms.append(("t%d" % k, term_trace(m["solver"], Sys.from_json(m["sys"]), m["maxit"], m["tol"])))
+    rc, out = coq_make(" ".join(MODEL_VO))
+    if rc != 0:
+        raise CoqRunError("model files do not build:\n" + out[-2000:])
+    res = run_coq(terms, tag + "_pre", IMPORTS, shard=max(4, (len(terms) + 2 * NPROC - 1) // (2 * NPROC)))
+    drop = set()
+    for k, c in enumerate(ties):
+        a = Ans(decode_coq(res["t%d" % k]))
+        TRACE[c.meta["oracle_line"]] = a
+        TRACE_STATS["model_runs"] += 1
+        if a.panic is None and a.margin is not None and a.margin == a.margin and a.margin <= 1e-9 * abs(c.meta["tol"]):
+            drop.add(id(c))
+            TRACE_STATS["tie_excluded_borderline"] += 1
+    return [c for c in cases if id(c) not in drop]
 
 # ----------------------------------------------------------------------------- answers
 class Ans:
     """decoded answer stream: panic | (ok, k | err, x, budget[, X])"""
     def __init__(self, items):
-        self.panic = None; self.ok = None; self.k = None; self.err = None; self.x = None; self.budget = None; self.X = None
+        self.panic = None; self.ok = None; self.k = None; self.err = None; self.x = None; self.budget = None; self.X = None; self.exit = None; self.margin = None
         if items and items[-1][0] == 'P' and len(items) == 1:
             self.panic = items[-1][1]; return
         if not items or items[0][0] != 'i':
@@ -93,16 +130,18 @@ class Ans:
         n = items[2][1]
         self.x = [bits_f64(it[1]) for it in items[3:3 + n]]
         self.budget = items[3 + n][1]
-        self.exit = None
+        self.exit = None; self.margin = None
         if len(items) > 4 + n:
             self.X = bits_f64(items[4 + n][1])
         if len(items) > 5 + n:
             self.exit = items[5 + n][1]
+        if len(items) > 6 + n:
+            self.margin = bits_f64(items[6 + n][1])
 
 # ----------------------------------------------------------------------------- model trace cache
 PENDING = []        # cases whose oracle needs the model's ghost trace
 TRACE = {}          # executor line -> Ans of the model (with X), or None if the model run failed
-TRACE_STATS = {"prescreened": 0, "model_runs": 0}
+TRACE_STATS = {"prescreened": 0, "model_runs": 0, "tie_excluded_borderline": 0}
 
 def needs_trace(case, a):
     """the drift allowance (hence the model's trace) matters only for an Ok answer whose exact residual exceeds tol"""
@@ -141,7 +180,7 @@ def ensure_traces(tag, force=False):
     for k, c in enumerate(need):
         m = c.meta
         s = Sys.from_json(m["sys"])
-        terms.append(("t%d" % k, "@it_flat_tr SAF flat_f %d %s" % (m["maxit"], coq_run(m["solver"], s, m["maxit"], m["tol"]))))
+        terms.append(("t%d" % k, term_trace(m["solver"], s, m["maxit"], m["tol"])))
     rc, out = coq_make(" ".join(MODEL_VO))
     if rc != 0:
         raise CoqRunError("model files do not build:\n" + out[-2000:])
